@@ -14,6 +14,7 @@ class Contract:
         self.sidecar = cls.__module__.split(".")[-1]
         self.args = d.get("args", {})
         self.mode = d.get("mode", "contract")
+        self.inline_at_calls = d.get("inline_at_calls", False)   # pure, tiny: the (verified) body is its own summary
         self.pure = d.get("pure", False)
         self.returns = d.get("returns", "any")
         self.raises_only = d.get("raises_only", None)     # None = unspecified, () = raises nothing
